@@ -539,13 +539,27 @@ def _monitor(case: dict, trace: list) -> list[Violation]:
 BASES = ['abc\\d.mp3', 'user1\\x\\y.flac', '1:ab0', 'ab']
 USERS = ['alice', 'bob', 'a', 'ab', '1:a', '2:ab', 'é', '日本', 'u 1', '10', '1', 'a:', '']
 PATHS = ['@@x\\music\\a.mp3', 'c', 'bc', '\\x', 'x\\y.flac', '0', '1', 'b0', 'é\\ü.ogg', ':a', 'a b\\c d.mp3', '']
+# identities that collide under plausible *wrong* key formats (plain concatenation is covered by BASES):
+# length prefix without separator, separator without length, NUL / '|' separators
+FAMILIES = [
+    [('abcdefghijkl', 'rest'), ('2', 'abcdefghijklrest')],
+    [('a:b', 'c'), ('a', 'b:c')],
+    [('a|b', 'c'), ('a', 'b|c')],
+    [('a\x00b', 'c'), ('a', 'b\x00c')],
+    [('1:a', 'b'), ('a', 'b')],
+    [('x', '1:yz'), ('x1:y', 'z')],
+]
 REASONS_F = [None, None, 'Cancelled', 'File not shared.', 'Queued', '']
 REASONS_A = [None, None, 'Requested', 'Blocked', 'File not shared']
 
 
 def _gen_ident(rng: random.Random) -> tuple:
     d = rng.choice([0, 1])
-    if rng.random() < 0.45:
+    r = rng.random()
+    if r < 0.12:
+        u, p = rng.choice(rng.choice(FAMILIES))
+        return u, p, d
+    if r < 0.5:
         b = rng.choice(BASES)
         i = rng.randint(0, len(b))
         return b[:i], b[i:], d
@@ -736,7 +750,7 @@ class C17(Property):
     def correspondence(self, seed, tier, model_ok, widen=1):
         res = KResult()
         rng = random.Random(f'C17-{seed}')
-        n = (500 if tier == 'quick' else 8000) * widen
+        n = (1500 if tier == "quick" else 20000) * widen
         cases = [WITNESS_COLLISION, WITNESS_MIGRATION] + [_gen_case(rng) for _ in range(n)]
         impl = common.parallel_map(_eval_case, cases, chunksize=4)
         model = None
